@@ -78,7 +78,7 @@ def one_session(args):
     rnd = random.Random(seed)
     wd = os.path.join(root, 'w%d' % tid)
     dated = gl.FAR_DATES[(tid // 3) % len(gl.FAR_DATES)] if (nperturb and tid % 3 == 0) else None
-    case = gl.make_case(rnd, wd, shape, tmpdir_tokens_with_one_iteration=(nperturb == 0), dated_first_line=dated)
+    case = gl.make_case(rnd, wd, shape, tmpdir_tokens_with_one_iteration=(nperturb == 0), dated_first_line=dated, hint=tid)
     ids = {}
     events = []
     detail = {'tid': tid, 'shape': shape, 'names': case['names'], 'command_arguments': case.get('cmd_args', ''), 'earlier_generation_in_same_process': case.get('prelim', False), 'flags': case['flags'], 'refs': case['refs'], 'pre': case['pre'], 'script': case['script'],
@@ -152,6 +152,8 @@ def one_session(args):
         forced_target, forced_how = None, None
         if step == 2 and 'o2' in case['names']:
             kind_, forced_target = 'edit', 'o2'
+        elif step == 2 and 'o4' in case['names']:
+            kind_, forced_target = 'edit', 'o4'
         elif step == 0 and not forced_char and tid % 3 == 1 and 'o1' in case['names'] and not case['names']['o1'].startswith('$TMPDIR/'):
             kind_, forced_target, forced_how = 'edit', 'o1', 'nonascii'
         if forced_target:
